@@ -28,8 +28,9 @@ Print Assumptions C01_accessors_total.
 
 (* ---- non-vacuity: accepted and rejected inputs ---- *)
 (* the panic-capable constructs of the library's non-test source (re-read from /repo/src on this run) are
-   exactly the ones the model accounts for: a new unwrap / index / slice breaks this obligation *)
-Theorem C01_sites : audit_panic_sites = known_panic_sites.
+   among the ones the model accounts for (per file and construct, at most the known count): a new
+   unwrap / index / slice breaks this obligation, removing one does not *)
+Theorem C01_sites : sites_within audit_panic_sites known_panic_sites = true.
 Proof. exact panic_sites_known_proof. Qed.
 Print Assumptions C01_sites.
 
